@@ -219,7 +219,7 @@ register('C15', title='purity of the analysis functions',
                  'thorough': {'nontrivial': 3000}},
          assumptions=['functions documented to work on their argument (detect_bursts_*, split_samples_df, check_min_burst_cycles, flatten_dfs) '
                       'are not in the statement and are not monitored; matplotlib axes passed to a plot are not caller data'],
-         quick_shards=8, thorough_shards=16)
+         quick_shards=8, thorough_shards=16, thorough_timeout=7200)
 
 register('C16', title='edge recomputation',
          deciding=['recompute_edges'],
